@@ -86,6 +86,7 @@ func main() {
 		// writes the function inventory of the current tree (all builds) to stdout
 		set := map[string][]string{}
 		callers := map[string]map[string]bool{}
+		sigs := map[string]string{}
 		for _, goos := range []string{"", "darwin", "freebsd", "openbsd", "windows"} {
 			p, err := core.Load(goos)
 			if err != nil {
@@ -94,6 +95,9 @@ func main() {
 			}
 			for _, k := range p.Inventory() {
 				set[k] = append(set[k], p.GOOS)
+			}
+			for k, sg := range p.InventorySigs() {
+				sigs[k] = sg
 			}
 			for k, cs := range p.InventoryCallers() {
 				for _, c := range cs {
@@ -116,7 +120,7 @@ func main() {
 				cs = append(cs, c)
 			}
 			sort.Strings(cs)
-			fmt.Println(k + "\t" + strings.Join(set[k], ",") + "\t" + strings.Join(cs, ";"))
+			fmt.Println(k + "\t" + strings.Join(set[k], ",") + "\t" + strings.Join(cs, ";") + "\t" + sigs[k])
 		}
 	case "list":
 		var ids []string
